@@ -316,6 +316,23 @@ impl RwsStr for String {
 }
 
 // .len(): bytes for str/String (UTF-8 length), elements for Vec/slice/array (these three are verified, not assumed)
+// s.chars().collect::<Vec<char>>()
+pub trait RwsCharsCollect {
+    spec fn sv9(&self) -> Seq<char>;
+    fn rws_chars_collect(&self) -> (r: Vec<char>)
+        ensures r@ == self.sv9();
+}
+impl RwsCharsCollect for str {
+    open spec fn sv9(&self) -> Seq<char> { self@ }
+    #[verifier::external_body]
+    fn rws_chars_collect(&self) -> Vec<char> { self.chars().collect() }
+}
+impl RwsCharsCollect for String {
+    open spec fn sv9(&self) -> Seq<char> { self@ }
+    #[verifier::external_body]
+    fn rws_chars_collect(&self) -> Vec<char> { self.chars().collect() }
+}
+
 pub trait RwsLen {
     spec fn len_spec(&self) -> nat;
     fn rws_len(&self) -> (r: usize)
